@@ -1563,14 +1563,14 @@ def corr_replay(ctx):
 
 
 def run(ctx):
-    gen(ctx)
+    ctx.guard("regenerate", gen, ctx)
     ok = ctx.lean_build(["HitenModel.Props.C11"])
     if ok:
         ctx.lean_audit(["HitenModel.Props.C11"], ["HitenModel.Props.C11", "HitenModel.Gen.C11", "HitenModel.Core.C11", "HitenModel.Lemmas.C11"])
         if ctx.thorough():
             ctx.leanchecker(["HitenModel.Props.C11"])
-    corr_exact(ctx)
-    corr_replay(ctx)
+    ctx.guard("corr_exact", corr_exact, ctx)
+    ctx.guard("corr_replay", corr_replay, ctx)
     numerics(ctx)
     ctx.rule = ("scripted dyadic worlds (piecewise-affine event scripts, step grids / accept-reject-factor scripts, tolerances) per "
                 "refine loop and driver + recorded replays + numerical scenarios (system x driver x event x direction x tolerance); "
